@@ -269,6 +269,10 @@ theorem updBest_last_imp (eval : α → F) (s : Summ α F) (off : α) (h : s.las
   · exact ⟨Nat.le_refl _, rfl⟩
   · exact ⟨h, rfl⟩
 
+theorem updBest_gen (eval : α → F) (s : Summ α F) (off : α) : (updBest eval s off).gen = s.gen := by
+  unfold updBest
+  split <;> rfl
+
 theorem updBest_best (eval : α → F) (s : Summ α F) (off : α) :
     (updBest eval s off).best = off ∨ (updBest eval s off).best = s.best := by
   unfold updBest
